@@ -14,15 +14,15 @@ theorem shiftOp_none_snd_digit (g : Txt) (c d : Nat) (t : Txt) (hg : Blank g) (h
 
 /-! ### scalar registers `x5`, `W12`, `q31`, … -/
 theorem goodOp_scalar (p n : Nat) (hp : isScalarPrefixC p = true) :
-    GoodOp false (p :: showNat n) (.reg { pre := some [p], name := some (showNat n) }) := by
+    GoodOp false true (p :: showNat n) (.reg { pre := some [p], name := some (showNat n) }) := by
   have hal := scalarPrefix_alpha p hp
   have hws := alpha_not_ws p hal
   refine ⟨?_, ?_, ?_, ?_⟩
   · intro g rest hg hf
     exact ⟨skipWs rest, by simpa using operandRest_scalar g p n rest hg hp hf, skipWs_idem rest⟩
-  · intro g rest hg hf
+  · intro _ g rest hg hf
     exact ⟨skipWs rest, by simpa using operandFirst_scalar g p n rest hg hp hf, skipWs_idem rest⟩
-  · intro g rest hg
+  · intro g rest hg _
     obtain ⟨d, ds, hd, hdd⟩ := showNat_cons n
     simp only [List.cons_append, hd]
     exact shiftOp_none_snd_digit g p d _ hg hws hdd
@@ -49,13 +49,16 @@ theorem showNat_ne_sp (n : Nat) : (lower (showNat n) == A64.spOperandName) = fal
   have : d ≠ 115 := by omega
   simp [this]
 
-theorem covered_scalar (last : Bool) (p n : Nat) (hp : isScalarPrefixC p = true) :
-    CoveredOp last (.reg (.scalar p n)) := by
+theorem covered_scalar (last fst : Bool) (p n : Nat) (hp : isScalarPrefixC p = true) :
+    CoveredOp last fst (.reg (.scalar p n)) := by
   refine ⟨p :: showNat n, [], .reg { pre := some [p], name := some (showNat n) }, rfl, ?_, ?_⟩
   · intro gs hgs
     have : gs = [] := hgs
     subst this
-    simpa [joinInner] using (goodOp_scalar p n hp).any last
+    have := ((goodOp_scalar p n hp).any last)
+    cases fst with
+    | true => simpa [joinInner] using this
+    | false => simpa [joinInner] using this.notFirst
   · have hsp := showNat_ne_sp n
     simp only [processOperand, hsp, processRegister, expectOp, expectReg]
     simp [lower, lowerTxt1]
@@ -76,13 +79,13 @@ theorem intText_head (i : IntA) : ∃ c t, intText i = c :: t ∧ isWs c = false
       refine ⟨d, ds, by simp [optHash, optNeg, hD], digit_not_ws d hd, ?_, by omega, by omega⟩
       simp only [isAlphaC]; simp; omega
 
-theorem goodOp_int (i : IntA) : GoodOp false (intText i) (.imm (.num (optNeg i.neg ++ intDigits i))) := by
+theorem goodOp_int (i : IntA) : GoodOp false true (intText i) (.imm (.num (optNeg i.neg ++ intDigits i))) := by
   refine ⟨?_, ?_, ?_, ?_⟩
   · intro g rest hg hf
     exact ⟨rest, operandRest_int g i rest hg hf, rfl⟩
-  · intro g rest hg hf
+  · intro _ g rest hg hf
     exact ⟨rest, operandFirst_int g i rest hg hf, rfl⟩
-  · intro g rest hg
+  · intro g rest hg _
     obtain ⟨c, t, hct, hws, ha, _, _⟩ := intText_head i
     rw [hct, List.cons_append]
     exact shiftOp_none_nonalpha g c _ hg hws ha
@@ -95,12 +98,15 @@ theorem processImmediate_int (i : IntA) :
   cases i.neg <;> cases i.hex <;>
     simp [optNeg, pyInt0_showNat, pyInt0_neg_showNat, pyInt0_showHex, pyInt0_neg_showHex]
 
-theorem covered_int (last : Bool) (i : IntA) : CoveredOp last (.int i) := by
+theorem covered_int (last fst : Bool) (i : IntA) : CoveredOp last fst (.int i) := by
   refine ⟨intText i, [], .imm (.num (optNeg i.neg ++ intDigits i)), rfl, ?_, ?_⟩
   · intro gs hgs
     have : gs = [] := hgs
     subst this
-    simpa [joinInner] using (goodOp_int i).any last
+    have := ((goodOp_int i).any last)
+    cases fst with
+    | true => simpa [joinInner] using this
+    | false => simpa [joinInner] using this.notFirst
   · simp [processOperand, processImmediate_int, expectOp]
 
 end OsacaVerif.ParseA64
